@@ -219,7 +219,9 @@ Inductive sev :=
 | ECfg (c : config)                      (* configuration change *)
 | ENode (n : nodeinfo)                   (* node add / label / condition change *)
 | ESpk (l : option (list N))             (* speaker membership change (ForceSync) *)
-| EResync.                               (* any other full re-sync *)
+| EResync                                (* any other full re-sync *)
+| ENodeDel (n : N).                      (* the Node object is deleted: the node reconciler ignores NotFound, the
+                                            handler is never called, the speaker keeps the node in c.nodes *)
 
 (* one event followed by the re-sync it requests *)
 Definition sstep (ev : env) (ws : cluster * sstate) (e : sev) : cluster * sstate :=
@@ -231,16 +233,41 @@ Definition sstep (ev : env) (ws : cluster * sstate) (e : sev) : cluster * sstate
   | ENode n => let '(st', ch) := set_node ev n st in (K, if ch then resync ev K st' else st')
   | ESpk l => (K, resync ev K (set_spk l st))
   | EResync => (K, resync ev K st)
+  | ENodeDel _ => (K, st)
   end.
 Definition srun (ev : env) (spk : option (list N)) (h : list sev) : cluster * sstate :=
   fold_left (sstep ev) h ([], sinit spk).
 
-(* a freshly started speaker fed the final cluster state: nodes, accepted
-   configuration, then every Service *)
-Definition fresh (ev : env) (st : sstate) (K : cluster) : sstate :=
-  let st1 := fold_left (fun a n => fst (set_node ev n a)) (s_nodes st) (sinit (s_spk st)) in
-  let st2 := match s_cfg st with Some c => fst (set_config ev c st1) | None => st1 end in
+(* ---- what the API server holds, tracked from the events alone (independently of the speaker):
+   the last DELIVERED configuration (accepted or refused), the existing Node objects, the speaker list *)
+Record apiserver := { api_cfg : option config; api_nodes : list nodeinfo; api_spk : option (list N) }.
+Definition api_step (a : apiserver) (e : sev) : apiserver :=
+  match e with
+  | ECfg c => {| api_cfg := Some c; api_nodes := api_nodes a; api_spk := api_spk a |}
+  | ENode n => {| api_cfg := api_cfg a; api_nodes := put_node n (api_nodes a); api_spk := api_spk a |}
+  | ENodeDel n => {| api_cfg := api_cfg a; api_nodes := filter (fun x => negb (nd_id x =? n)) (api_nodes a); api_spk := api_spk a |}
+  | ESpk l => {| api_cfg := api_cfg a; api_nodes := api_nodes a; api_spk := l |}
+  | _ => a
+  end.
+Definition api_run (spk : option (list N)) (h : list sev) : apiserver :=
+  fold_left api_step h {| api_cfg := None; api_nodes := []; api_spk := spk |}.
+
+(* a freshly started speaker fed, in this order, the nodes, the configuration, then every Service *)
+Definition fresh_of (ev : env) (cfg : option config) (nodes : list nodeinfo) (spk : option (list N)) (K : cluster) : sstate :=
+  let st1 := fold_left (fun a n => fst (set_node ev n a)) nodes (sinit spk) in
+  let st2 := match cfg with Some c => fst (set_config ev c st1) | None => st1 end in
   resync ev K st2.
+(* ... fed the final CLUSTER state (what the API server holds at the end of the history) *)
+Definition fresh_cluster (ev : env) (a : apiserver) (K : cluster) : sstate :=
+  fresh_of ev (api_cfg a) (api_nodes a) (api_spk a) K.
+(* ... fed what the speaker under test remembers (last ACCEPTED configuration, every node ever seen):
+   used inside the proofs; equal to fresh_cluster when the speaker is in sync with the cluster *)
+Definition fresh (ev : env) (st : sstate) (K : cluster) : sstate :=
+  fresh_of ev (s_cfg st) (s_nodes st) (s_spk st) K.
+(* the speaker is in sync with the cluster: the last delivered configuration was accepted (no refusal is
+   pending) and no Node object the speaker remembers was deleted *)
+Definition in_sync (a : apiserver) (st : sstate) : Prop :=
+  s_cfg st = api_cfg a /\ s_nodes st = api_nodes a.
 
 (* ---- observables: what is announced ---- *)
 Definition opt_set_equiv {A} (a b : option (list A)) : Prop :=
@@ -274,6 +301,7 @@ Definition requests_resync (ev : env) (st : sstate) (e : sev) : bool :=
   | ECfg c => snd (set_config ev c st)
   | ENode n => snd (set_node ev n st)
   | ESpk _ | EResync => true
+  | ENodeDel _ => false
   end.
 Definition first_node_event (st : sstate) (K : cluster) (e : sev) : bool :=
   match e with
